@@ -231,7 +231,7 @@ def run(ctx):
     for a, b in [('1.99', '2.0'), ('2.0', '1.99'), ('1.5', '2.0'), ('2.0', '2.0'), ('1.5', '1.99'), ('2.0', '1.5')]:
         multi.append({'kind': 'multi', 'line': 'SSH-%s-SSH-%s-OpenSSH_8.0' % (a, b), 'versions': [a, b]})
     ctx.map(multi)
-    ctx.hyp('strat_cli', 2500 if q else 50000, label=3)
+    ctx.hyp('strat_cli', 10000 if q else 150000, label=3)
     # deterministic split-delivery grid: one banner with headers at every segment size
     grid = []
     for seg in [0] + list(range(1, 41)):
